@@ -21,7 +21,9 @@ EXPLANATION = (
     "locals. Before the analysis the flattened copy is brought into a normal form: generator helpers are expanded, map / filter / "
     "operator-module functions / attrgetter / methodcaller / lambdas / module-level dispatch tables are read as the expressions they compute, "
     "`a and self._helper()` is split into statements, NamedTuple / dataclass records and dicts used with constant keys are replaced by one local "
-    "per field / key (record methods and properties inlined, loops over zip(record, record) unrolled). Decided: C15.guard -- the slot list of a step is the list handed to JointActionCall; every store into it that can follow "
+    "per field / key (record methods and properties inlined -- also when called through the class, Rec.merge(a, b) --, loops over zip(record, record) and "
+    "Rec(*(.. for .. in zip(a, b))) unrolled), functools.partial objects bound once are applied, any / all / for loops over tables of rows (module-level "
+    "tables of attrgetter pairs or field names, tuples of pairs of locals, also with break / else) are written out row by row. Decided: C15.guard -- the slot list of a step is the list handed to JointActionCall; every store into it that can follow "
     "another store of the same step is unreachable (finite valuation of the guards, propagated through helper results and boolean "
     "locals) in each of the scenarios: the slot tested for the candidate is occupied, the candidate is inapplicable, one of the six "
     "required set pairs (add/delete both ways, precondition/delete, numeric write/write, numeric read/write both ways) has a common "
@@ -30,7 +32,12 @@ EXPLANATION = (
     "extracting helper reads (discrete effects split by is_positive, numeric effect / precondition targets, discrete preconditions) "
     "and whether the operator was built from the head of the remaining plan or from a member of the slot list; a set that is the union of "
     "several kinds stands for each of them. The applicability "
-    "test is asked of the candidate's operator on the step's pre-state. C15.once -- every outer iteration appends exactly one "
+    "test is asked of the candidate's operator on the step's pre-state. A test that sits inside the walk over the members (one member at a time, early "
+    "return) counts like one on accumulated sets: in a scenario where two sets share an element some non-nop member is walked. C15.members -- every "
+    "walk over the members of the slot list (or over a container filled member by member) that builds operators / extracts their effects is complete: no "
+    "slice / islice, no filter but the nop test, not left early while all tests pass, every non-nop member's iteration builds the operator, extracts and "
+    "hands on; the accumulated sets are not overwritten per member. C15.footprint -- no effect group of an operator is skipped when its add / delete / "
+    "numeric effects are collected. C15.once -- every outer iteration appends exactly one "
     "JointActionCall built from the slot list to the returned list; every popped head is stored into the slot agent_names.index(<agent of "
     "a plan entry>); the slot list starts as nop for every agent in the given order. C15.thread -- the step pre-state is the initial "
     "state of the problem, advanced by apply_actions(domain, pre-state, non-nop members of the slot list). C15.agent / C15.extract -- "
@@ -67,6 +74,10 @@ class _Ctx:
             raise AnalysisError(f"{self.K.raw.qn}: no JointActionCall is built from a local slot list")
         self.slot_ids = {id(o) for o in self.slot_nodes}
         self.V = U.Verdict(repo, self.kf, self.plan, self.slot_ids, self.ex, self.nop)
+        # walks over the members of a step (C15.members; the guard scenarios use them too)
+        self.M = U.Members(repo, self.kf, self.p, self.g, self.slot_ids, self.V, self.ex, self.agents)
+        self.V.member_walks = [(self.g.node_of(w.node), self.M.nop_atom(w), self.M.body_nodes(w)) for w in self.M.walks
+                               if w.relevant and w.kind == "for" and w.status == "complete"]
         self.stores = [n for n in ast.walk(self.kf.node) if isinstance(n, ast.Assign) and len(n.targets) == 1 and isinstance(n.targets[0], ast.Subscript)
                        and U.same_object(self.p, n.targets[0].value, self.slot_ids)]
         self.stores.sort(key=lambda n: (n.lineno, n.col_offset))
@@ -677,5 +688,129 @@ def rule_footprint(repo: Repo) -> RuleResult:
     return r
 
 
+# --------------------------------------------------------------------------------------------------------------- C15.members
+GOOD = {"occupied": False, "applicable": True, "pair:*": False}
+
+
+def _use_name(x: _Ctx, key: str) -> str:
+    if key == "Operator":
+        return "operator"
+    if key.startswith("field:"):
+        return "effects" if "effects" in key else "preconditions"
+    if key in x.ex.by_name:
+        return "extract:" + "/".join(sorted({k for comp in x.ex.by_name[key].values() for _i, k in comp}))
+    return "collection"
+
+
+def rule_members(repo: Repo) -> RuleResult:
+    """the sets the interference test compares the candidate with must hold what EVERY action that is already part of the step reads
+    and writes: each walk over the members of the slot list (or over something computed member by member) is complete (no slice,
+    no filter other than the nop test, not left early while all tests pass), every non-nop member's iteration builds the operator /
+    extracts its effects and preconditions / hands them on, and what was collected for earlier members is kept"""
+    r = RuleResult("C15.members", "the interference test is fed with the effects and preconditions of every non-nop member of the step",
+                   "two actions share a joint step only if they do not interfere: no member of the step is left out of the test")
+    x = _ctx(repo)
+    g, p, V = x.g, x.p, x.V
+    V.reach(GOOD)
+    M = x.M
+    rel = [w for w in M.walks if w.relevant]
+    acc_ops = [(e, role) for a, b, ra, rb in V.pair_operands for e, role in ((a, ra), (b, rb)) if role.split(".")[0] in ("acc", "mixed")]
+    r.site(x.c.qn + " [walks over the members of a step]")
+    if not rel:
+        if acc_ops:
+            raise AnalysisError(f"{x.K.raw.qn}: the interference test reads sets computed from the members of the step, but no walk over the members "
+                                f"that builds their operators was recognised")
+        r.ok({"member_walks": 0})
+        return r
+    consumed = {w.source for w in rel}
+    for w in rel:
+        what = unparse(w.iter, 50)
+        r.site(x.site(w.owner if w.kind == "comp" else w.node, "walk over the members"))
+        bad = False
+        if w.status == "unknown":
+            raise AnalysisError(f"{x.K.raw.qn}: `{what}` reads the members of the step in a way that is not interpreted")
+        if w.status == "restricted":
+            r.fail(Finding("C15.members", x.c, "members-restricted", f"the walk over `{what}` leaves out members of the step (slice / islice): their effects "
+                           f"never reach the interference test", node=w.owner))
+            bad = True
+        nop = M.nop_atom(w)
+        if w.kind == "comp":
+            for cond in w.node.ifs:
+                c, neg = cond, False
+                while isinstance(c, ast.UnaryOp) and isinstance(c.op, ast.Not):
+                    c, neg = c.operand, not neg
+                a = nop(c)
+                if a is None or (a[1] != neg):
+                    r.fail(Finding("C15.members", x.c, "members-filtered", f"members of the step are filtered by `{unparse(cond, 50)}` (not the nop test) before "
+                                   f"their effects are collected", node=w.owner))
+                    bad = True
+        else:
+            head = g.node_of(w.node)
+            body = M.body_nodes(w)
+            starts = [m for m, l in g.succ[head] if l == "iter"]
+            sc = dict(GOOD)
+            sc["member-is-nop"] = False
+            V.extra = lambda e, nop=nop: nop(e)
+            try:
+                seen = V.reach(sc, start=starts, avoid={head})
+                if any(n not in body and n != head and n != g.raise_ for n in seen):
+                    r.fail(Finding("C15.members", x.c, "walk-left-early", f"the walk over `{what}` can end before the last member although every test passes: "
+                                   f"the remaining members never reach the interference test", node=w.node))
+                    bad = True
+                groups: Dict[str, Set[int]] = {}
+                for key, nodes in w.uses.items():
+                    for n in nodes:
+                        cn = g.node_of(n) if isinstance(n, ast.stmt) else g.node_containing(n.iter if isinstance(n, ast.comprehension) else n)
+                        if cn is not None:
+                            groups.setdefault(_use_name(x, key), set()).add(cn)
+                for c_id, site_ in w.feeds:
+                    if c_id in consumed:
+                        cn = g.node_of(site_) if isinstance(site_, ast.stmt) else g.node_containing(site_)
+                        if cn is not None:
+                            groups.setdefault("collection", set()).add(cn)
+                for name, targets in sorted(groups.items()):
+                    st_ = [s_ for s_ in starts if s_ not in targets]
+                    seen = V.reach(sc, start=st_, avoid=set(targets) | (set(g.nodes()) - body)) if st_ else set()
+                    if head in seen:
+                        r.fail(Finding("C15.members", x.c, f"member-skipped:{name}", f"some way through the walk over `{what}` skips a non-nop member ({name}): "
+                                       f"what it reads and writes never reaches the interference test", node=w.node))
+                        bad = True
+            finally:
+                V.extra = None
+        # a container that is filled member by member and read after the walk must outlive the walk
+        feeder = M.containers.get(w.source)
+        site_node = M.container_nodes.get(w.source)
+        if feeder is not None and feeder.kind == "for" and site_node is not None and any(n is site_node for s_ in feeder.node.body for n in ast.walk(s_)) \
+                and not any(n is w.node or n is w.owner for s_ in feeder.node.body for n in ast.walk(s_)):
+            r.fail(Finding("C15.members", x.c, "not-accumulated", f"`{what}` is created anew for every member: only the last member reaches the interference test", node=w.node))
+            bad = True
+        if not bad:
+            r.ok({"walk": what, "kind": w.kind, "computes": sorted(_use_name(x, k) for k in getattr(w, "uses", {}))})
+    # what was collected for earlier members is kept
+    r.site(x.c.qn + " [accumulated sets]")
+    lost = []
+    for e, role in acc_ops:
+        os_ = U.origins(p, e) if isinstance(e, ast.Name) else [e]
+        ids = {id(o) for o in os_}
+        for w in rel:
+            if w.kind != "for" or M.inside(w, e):
+                continue
+            for o in os_:
+                if not any(n is o for s_ in w.node.body for n in ast.walk(s_)):
+                    continue
+                if isinstance(o, ast.AugAssign):
+                    continue
+                refs = [n for n in ast.walk(o) if isinstance(n, ast.Name) and isinstance(n.ctx, ast.Load)]
+                if not any(ids & {id(q) for q in U.origins(p, n)} for n in refs) and not any(o is o2 for _e, _r, o2 in lost):
+                    lost.append((e, role, o))
+    if lost:
+        for e, role, o in lost:
+            r.fail(Finding("C15.members", x.c, "not-accumulated", f"the set `{unparse(e, 40)}` ({role}) is overwritten for every member ({unparse(o, 50)}): only "
+                           f"the last member reaches the interference test", node=o if isinstance(o, ast.AST) else None))
+    else:
+        r.ok({"accumulated_sets": len(acc_ops)})
+    return r
+
+
 def rules(repo: Repo, tier: str) -> List[RuleResult]:
-    return [rule_guard(repo), rule_once(repo), rule_thread(repo), rule_agent(repo), rule_extract(repo), rule_footprint(repo)]
+    return [rule_guard(repo), rule_once(repo), rule_thread(repo), rule_agent(repo), rule_extract(repo), rule_footprint(repo), rule_members(repo)]
